@@ -79,14 +79,18 @@ class World:
         self.early = [set(), set()]  # prefixes whose response arrived before the parent's
         self.accepted = self.rejected = 0
         self.orders = [[], []]
+        self.idx = -1
+        self.obs = []
 
     def viol(self, oracle, msg):
         raise Violation(oracle, msg, event=self.ev)
 
     def run(self, cmds):
-        for cmd in cmds:
+        for i, cmd in enumerate(cmds):
+            self.idx = i
             self.ev += 1
             out = getattr(self, "op_" + cmd["op"])(cmd)
+            self.obs.append((i, cmd["op"], out, tuple(tuple(r.members) for r in self.reps)))
             self.st.rec(self.ev, cmd["op"], cmd.get("r"), out)
             self.st.sched_rec(cmd["op"], cmd.get("r"), out)
         self.finish()
